@@ -221,8 +221,9 @@ func scenarios(thorough bool) []*scenario {
 			r.Out = ""
 			return r
 		}},
-		customAgentScenario("fetch-custom-agent-same-fs", false, A, B),
-		customAgentScenario("fetch-custom-agent-cross-fs", true, A, B),
+		customAgentScenario("fetch-custom-agent-same-fs", false, A, B, false),
+		customAgentScenario("fetch-custom-agent-cross-fs", true, A, B, false),
+		customAgentScenario("fetch-custom-agent-corrupt-delivery", false, A, B, true),
 		{name: "prune", build: func(w *gitx.World, srv *fakelfs.Server) {
 			repo := baseRepo(w, nil)
 			for i, d := range [][]byte{A, B, C} {
@@ -275,14 +276,28 @@ func scenarios(thorough bool) []*scenario {
 // customAgentScenario: `git lfs fetch` of two objects through a standalone custom transfer agent (props/C09/c09_agent.py)
 // that stages each download either inside the world (same file system: git-lfs renames it into place) or on tmpfs
 // (/dev/shm: the rename fails with EXDEV; at HEAD the transfer is then reported as failed and nothing is stored).
-func customAgentScenario(name string, crossFS bool, A, B []byte) *scenario {
+// customAgentScenario: git lfs fetch through a standalone custom transfer agent.  With corruptB the agent hands over,
+// for the second object, a file of the right size and wrong content: the uninterrupted run reports an error and stores
+// only the first object, and no crash point may leave the wrong bytes under the object's name.
+func customAgentScenario(name string, crossFS bool, A, B []byte, corruptB bool) *scenario {
+	src := "agent-src"
+	if corruptB {
+		src = "agent-src-corrupt"
+	}
 	return &scenario{name: name, build: func(w *gitx.World, srv *fakelfs.Server) {
 		repo := baseRepo(w, nil)
 		commitPointers(w, repo, map[string][]byte{"a.bin": A, "b.bin": B}, "ptrs")
-		srcDir := filepath.Join(refStoreDir(), "agent-src")
+		srcDir := filepath.Join(refStoreDir(), src)
 		os.MkdirAll(srcDir, 0755)
-		for _, d := range [][]byte{A, B} {
-			os.WriteFile(filepath.Join(srcDir, gitx.Oid(d)), d, 0644)
+		for i, d := range [][]byte{A, B} {
+			content := d
+			if corruptB && i == 1 {
+				content = append([]byte(nil), d...)
+				for j := range content {
+					content[j] ^= 0x5a
+				}
+			}
+			os.WriteFile(filepath.Join(srcDir, gitx.Oid(d)), content, 0644)
 		}
 		w.MustGit(repo, "config", "lfs.standalonetransferagent", "c09agent")
 		w.MustGit(repo, "config", "lfs.customtransfer.c09agent.path", "python3")
@@ -294,7 +309,7 @@ func customAgentScenario(name string, crossFS bool, A, B []byte) *scenario {
 			stage = filepath.Join(refStoreDir(), "agent-stage-"+filepath.Base(filepath.Dir(w.Root)))
 			defer os.RemoveAll(stage)
 		}
-		e := append([]string{"C09_AGENT_SRC=" + filepath.Join(refStoreDir(), "agent-src"), "C09_AGENT_STAGE=" + stage}, env...)
+		e := append([]string{"C09_AGENT_SRC=" + filepath.Join(refStoreDir(), src), "C09_AGENT_STAGE=" + stage}, env...)
 		return w.RunIn(repoOf(w), nil, e, filepath.Join(w.BinDir, "git-lfs"), "fetch")
 	}}
 }
